@@ -873,3 +873,115 @@ def unit_fieldclass(inj, scratch):
     return dict(functions=[fn_record(s, 'is_numeric_field', 'K', impl='Field', how='whole function; postcondition asserted in an appended harness over every enum variant'),
                            fn_record(s, 'is_datetime_field', 'K', impl='Field', how='whole function; postcondition asserted in an appended harness over every enum variant')],
                 dropped=['cfg-gated variants User/Group (text columns) are not enumerated'])
+
+
+# --------------------------------------------------------------------------------------------------
+# output formatters (C09)
+# --------------------------------------------------------------------------------------------------
+class _FT:
+    def __init__(self, whole, template, argtext):
+        self.whole, self.template, self.argtext = whole, template, argtext
+
+    def group(self, k):
+        return [self.whole, self.template, self.argtext][k]
+
+
+def _format_template(s, it, what):
+    """locate the single `format!("TEMPLATE", ARG, ..)` call in a function body (balanced parentheses)."""
+    ms = s.find_all(r'format!\(', (it['open'], it['close']))
+    if len(ms) != 1:
+        raise AnchorLost(f'{what}: expected exactly one format!(..) call, found {len(ms)}')
+    o = ms[0].end() - 1
+    c = s.match_close(o)
+    inner = s.text[o + 1:c]
+    m = re.match(r'\s*"((?:[^"\\]|\\.)*)"\s*(,.*)?$', inner, flags=re.S)
+    if not m:
+        raise AnchorLost(f'{what}: format! does not start with a string literal')
+    return _FT(s.text[ms[0].start():c + 1], m.group(1), (m.group(2) or '')[1:] if m.group(2) else '')
+
+
+def _concat_expr(template, args, what):
+    """Rust expression building the same String as format!(template, args..) for plain `{}` placeholders
+    (Display of &str / String / char is the text itself - assumption listed in the evidence)."""
+    parts = template.split('{}')
+    if '{' in ''.join(parts) or '}' in ''.join(parts) or len(parts) - 1 != len(args):
+        raise AnchorLost(f'{what}: format template is not a plain {{}} template matching its arguments')
+    stmts = ['let mut verif_s = String::new();']
+    for i, lit in enumerate(parts):
+        if lit:
+            stmts.append(f'verif_s.push_str("{lit}");')
+        if i < len(args):
+            stmts.append(f'verif_s.push_str(&({args[i]}).to_string());')
+    stmts.append('verif_s')
+    return '{ ' + ' '.join(stmts) + ' }'
+
+
+def _split_args(argtext):
+    args, depth, cur = [], 0, ''
+    for ch in argtext:
+        if ch in '([{':
+            depth += 1
+        elif ch in ')]}':
+            depth -= 1
+        if ch == ',' and depth == 0:
+            if cur.strip():
+                args.append(cur.strip())
+            cur = ''
+        else:
+            cur += ch
+    if cur.strip():
+        args.append(cur.strip())
+    return args
+
+
+def unit_html(inj, scratch):
+    rel = 'src/output/html.rs'
+    s = src(rel, scratch)
+    impl = s.item('impl', r'ResultsFormatter\s+for\s+HtmlFormatter')
+    it = s.item('fn', 'format_element', (impl['open'], impl['close']))
+    m = _format_template(s, it, 'HtmlFormatter::format_element')
+    body = re.sub(r'\s+', ' ', s.text[it['open'] + 1:it['close']]).strip()
+    if not re.fullmatch(r'Some\(format!\(.*\)\)', body):
+        raise AnchorLost('HtmlFormatter::format_element is not `Some(format!(..))`')
+    sig = s.mask[it['sig_start']:it['open']]
+    pm = re.search(r'fn\s+format_element\s*\(\s*&mut\s+self\s*,\s*(\w+)\s*:\s*&str\s*,\s*(\w+)\s*:\s*&str\s*,\s*(\w+)\s*:\s*bool', sig)
+    if not pm:
+        raise AnchorLost('HtmlFormatter::format_element: unexpected signature')
+    args = _split_args(m.group(2))
+    expr = _concat_expr(m.group(1), args, 'HtmlFormatter::format_element')
+    p1 = pm.group(1) if pm.group(1) != '_' else '_name'
+    gen = (f'    // generated from `format!("{m.group(1)}", {", ".join(args)})` in HtmlFormatter::format_element\n'
+           f'    pub fn frag_html_cell({p1}: &str, {pm.group(2)}: &str, {pm.group(3)}: bool) -> String {expr}\n')
+    inj.append(rel, H('html.kani.rs').replace('/*GENERATED_CELL*/', gen))
+    fns = [fn_record(s, 'escape_html', 'K', how='whole function; postcondition asserted in an appended harness')]
+    r, d = frag_record('frag_html_cell', rel, 'HtmlFormatter::format_element / the format! template and its argument expressions',
+                       s.text_of(it), gen, ['format!(T, a..) -> concatenation of the literal pieces of T and a.to_string() (plain {} placeholders only)'],
+                       'the core::fmt machinery (format! does not terminate in CBMC even on concrete arguments: measured > 400 s)')
+    return dict(functions=fns + [r], dropped=[d],
+                assumptions=['format! with plain {} placeholders writes the literal pieces and the Display text of each argument in order; Display of &str/String/char is the text itself (std, T2)'])
+
+
+def unit_flat(inj, scratch):
+    rel = 'src/output/flat.rs'
+    s = src(rel, scratch)
+    impl = s.item('impl', r'ResultsFormatter\s+for\s+FlatWriter')
+    it = s.item('fn', 'format_element', (impl['open'], impl['close']))
+    body = s.text[it['open']:it['end']]
+    m = _format_template(s, it, 'FlatWriter::format_element')
+    args = _split_args(m.group(2))
+    expr = _concat_expr(m.group(1), args, 'FlatWriter::format_element')
+    g = body.replace(m.group(0), expr)
+    if 'format!' in g:
+        raise AnchorLost('FlatWriter::format_element: more than one format! call')
+    sig = s.mask[it['sig_start']:it['open']]
+    pm = re.search(r'fn\s+format_element\s*\(\s*&mut\s+self\s*,\s*(\w+)\s*:\s*&str\s*,\s*(\w+)\s*:\s*&str\s*,\s*(\w+)\s*:\s*bool', sig)
+    if not pm:
+        raise AnchorLost('FlatWriter::format_element: unexpected signature')
+    p1 = pm.group(1) if pm.group(1) != '_' else '_name'
+    gen = (f'    // FlatWriter::format_element, verbatim, with its format! call replaced by the equivalent concatenation\n'
+           f'    impl FlatWriter {{ pub fn frag_format_element(&mut self, {p1}: &str, {pm.group(2)}: &str, {pm.group(3)}: bool) -> Option<String> {g} }}\n')
+    inj.append(rel, H('flat.kani.rs').replace('/*GENERATED_CELL*/', gen))
+    r, d = frag_record('FlatWriter::frag_format_element', rel, 'FlatWriter::format_element (whole body) with format!(T, a..) replaced by concatenation',
+                       dedent(body), gen, ['format!(T, a..) -> concatenation (plain {} placeholders only)'], 'the core::fmt machinery')
+    return dict(functions=[r, fn_record(s, 'row_ended', 'K', how='whole function; postcondition asserted in an appended harness')], dropped=[d],
+                assumptions=['format! with plain {} placeholders concatenates (std, T2)'])
